@@ -357,3 +357,84 @@ _targets_c15_with_get = targets
 
 def targets():      # noqa: F811
     return _targets_c15_with_get() + [target_set_default_values(), target_validate_impedances()]
+
+
+_targets_before_snapshots = targets
+
+
+def target_default_snapshots():
+    """`_initialized` and `reset_default_parameter_values` on recording class stand-ins: the snapshot holds, for every element
+    class registered at start-up, a COPY of its default values (its own dictionary -- a later `set_default_values` must not reach
+    the snapshot); the reset hands exactly the snapshotted values of a class to that class's `set_default_values` -- for every
+    start-up class when called without argument, for exactly the listed (or the single given) classes otherwise, whether or not
+    they are still registered -- leaves the snapshot itself untouched, and refuses anything that is not an element class or a
+    non-empty list of element classes."""
+    from pyvc import overload as O
+    REG = "circuit/registry"
+
+    def run(sess: Session):
+        class Element:
+            pass
+
+        def mk(name, defaults):
+            calls = []
+            live = dict(defaults)
+
+            class K(Element):
+                @classmethod
+                def get_default_values(cls):
+                    return live
+
+                @classmethod
+                def set_default_values(cls, *a, **kw):
+                    calls.append((a, dict(kw)))
+            K.__name__ = name
+            K.calls, K.live = calls, live
+            return K
+        A, Bc, U = mk("A", {"R": 1.0}), mk("B", {"Y": 2.0, "n": 0.5}), mk("User", {"X": 9.0})
+        elements = {"A": A, "B": Bc}
+        snap_e, snap_p = {}, {}
+        ns = {"_ELEMENTS": elements, "_DEFAULT_ELEMENTS": snap_e, "_DEFAULT_ELEMENT_PARAMETERS": snap_p, "Element": Element}
+        O.load(REG, ["_initialized"], ns)
+        ns["_initialized"]()
+        sess.check("post", [], z3.BoolVal(snap_e == elements and snap_e is not elements), 0, label="_initialized: the start-up classes are remembered in a table of their own")
+        ok = sorted(snap_p) == ["A", "B"] and snap_p["A"] == {"R": 1.0} and snap_p["B"] == {"Y": 2.0, "n": 0.5} and snap_p["A"] is not A.live and snap_p["B"] is not Bc.live
+        sess.check("post", [], z3.BoolVal(ok), 0, label="_initialized: the default values of every start-up class are remembered as a copy (not the class's own dictionary)")
+        A.live["R"] = 77.0          # what a later set_default_values does to the class
+        sess.check("post", [], z3.BoolVal(snap_p.get("A") == {"R": 1.0}), 0, label="_initialized: changing a class's defaults afterwards does not reach the snapshot")
+        # reset
+        ns2 = {"_DEFAULT_ELEMENTS": snap_e, "_DEFAULT_ELEMENT_PARAMETERS": snap_p, "Element": Element,
+               "get_elements": lambda **kw: dict(snap_e) if kw.get("default_only") else {**snap_e, "User": U}}
+        O.load(REG, ["reset_default_parameter_values"], ns2)
+        rs = ns2["reset_default_parameter_values"]
+
+        def cleared():
+            for k_ in (A, Bc, U):
+                del k_.calls[:]
+        before = {k_: dict(v) for k_, v in snap_p.items()}
+        for arg, want, tag in ((None, {"A", "B"}, "no argument"), ([Bc], {"B"}, "a list with one class"), ([A, Bc], {"A", "B"}, "a list of classes"), (A, {"A"}, "a single class"), ([U], set(), "a user-defined class")):
+            cleared()
+            try:
+                rs(arg) if arg is not None else rs()
+                raised = None
+            except Exception as ex:       # noqa: BLE001
+                raised = type(ex).__name__
+            got = {n: k_.calls for n, k_ in (("A", A), ("B", Bc), ("User", U)) if k_.calls}
+            ok = raised is None and set(got) == want and all(got[n] == [((), before[n])] for n in want)
+            ob = sess.check("post", [], z3.BoolVal(ok), 0, label=f"reset_default_parameter_values[{tag}]: exactly the addressed start-up classes get exactly their snapshotted values, once")
+            if not ok:
+                ob.detail = f"raised={raised} calls={got!r}"
+            sess.check("post", [], z3.BoolVal(snap_p == before and all(snap_p[k_] is not None for k_ in snap_p)), 0, label=f"reset_default_parameter_values[{tag}]: the snapshot is left as it was")
+        for bad, exc, tag in (([], "ValueError", "an empty list"), ([int], "TypeError", "a list with a non-element"), (int, "TypeError", "a class that is not an element")):
+            cleared()
+            try:
+                rs(bad)
+                raised = None
+            except Exception as ex:       # noqa: BLE001
+                raised = type(ex).__name__
+            sess.check("post", [], z3.BoolVal(raised == exc and not (A.calls or Bc.calls)), 0, label=f"reset_default_parameter_values refuses {tag} with {exc} and resets nothing")
+    return (f"{REG}:_initialized / reset_default_parameter_values", REG, "reset_default_parameter_values", run)
+
+
+def targets():      # noqa: F811
+    return _targets_before_snapshots() + [target_default_snapshots()]
